@@ -160,6 +160,14 @@ def run_case(c, R):
                 R.check(not bad.any(), 'bounded-differs-from-unbounded-restricted', nbad=int(bad.sum()), cols=[lo, hi],
                         maxerr=float(err.max()))
                 R.count('bounded_vs_unbounded_pixels', int(dec.sum()))
+                # without frequency integration every pixel is elementwise arithmetic on the frame's own axis values: restricting
+                # the computation to a range cannot change a single bit ("equals", not "is close to")
+                deterministic_ = s['spec']['path']['kind'] != 'rfi' and not (s['spec']['tprof']['kind'] == 'pgauss' and (
+                    s['spec']['tprof']['direction'] == 'rand' or s['spec']['tprof'].get('offset_width', 0)))
+                if not s['opts'].get('integrate_f_profile') and s['spec']['bp']['kind'] != 'array' and deterministic_:
+                    nb_ = int((ret[:, lo:hi] != unb[:, lo:hi]).sum())
+                    R.check(nb_ == 0, 'bounded-differs-bitwise-from-unbounded-restricted', nbad=nb_, cols=[lo, hi])
+                    R.count('bounded_vs_unbounded_bitwise_pixels', int(ret[:, lo:hi].size))
         # the returned array is the caller's: accumulating into it (total = first; total += next) must not reach anything the
         # library hands out later
         ret += 3.25
